@@ -11,7 +11,7 @@
 (* Invariant Sane: a prescribed result is well formed (model check of the   *)
 (* specification itself on every case).                                     *)
 (***************************************************************************)
-EXTENDS NanoLib, Json, IOUtils
+EXTENDS NanoSem, Json, IOUtils
 CONSTANTS Deep          \* FALSE: quick alphabets, TRUE: thorough
 
 N(k) == I64FromInt(k)
@@ -98,19 +98,45 @@ ListCasesOf(p, et) ==
         \o Prod2(Idx(cs[k]), NewElem(et), LAMBDA ix, x : Case(p \o "_insert", <<ref, ix, x>>, <<cs[k]>>))])
 ListCases == ListCasesOf("list_int", "int") \o ListCasesOf("list_string", "str")
 
-Raw == CharCases \o ConvCases \o NewCases \o SliceCases \o RemoveCases \o ListCases
+\* ---- the string / math builtins that NanoSem.tla specifies itself (STDLIB "String Operations", "Character Access", "Basic Math"):
+\* the same table, evaluated through NanoSem!Builtin
+Punct == " !#$%&'()*+,-./0123456789:;<=>?@ABCDEFGHIJKLMNOPQRSTUVWXYZ[]^_`abcdefghijklmnopqrstuvwxyz{|}~"     \* printable ASCII without the quote and the backslash
+Strs == <<"", "a", "ab", "abc", "ba", "aab", "Hello, World!", Punct>> \o (IF Deep THEN <<"b", "abab", " a ", "0", "ABC">> ELSE <<>>)
+Sv == [k \in 1..Len(Strs) |-> VStr(Strs[k])]
+CharAtCases == [k \in 1..Len(Punct) |-> Case("char_at", <<VStr(Punct), Vi(k - 1)>>, <<>>)]
+               \o Flat([k \in 1..Len(Strs) |-> LET L == Len(Strs[k]) IN
+                        [j \in 1..6 |-> Case("char_at", <<Sv[k], (<<Vi(0), Vi(L - 1), Vi(L), Vi(-1), Wide(0), VMax>>)[j]>>, <<>>)]])
+FromCharCases == [k \in 1..95 |-> Case("string_from_char", <<Vi(31 + k)>>, <<>>)]
+                 \o [k \in 1..9 |-> Case("string_from_char", <<(<<Vi(0), Vi(10), Vi(31), Vi(127), Vi(200), Vi(256 + 65), Vi(-1), Wide(65), VMin>>)[k]>>, <<>>)]
+Str1Cases == [k \in 1..Len(Sv) |-> Case("str_length", <<Sv[k]>>, <<>>)]
+Str2Cases == Prod3(<<"str_concat", "str_equals", "str_contains">>, Sv, Sv, LAMBDA f, x, y : Case(f, <<x, y>>, <<>>))
+SubCases == Flat([k \in 1..Len(Strs) |-> LET L == Len(Strs[k]) IN
+                 Prod2(<<Vi(0), Vi(1), Vi(L - 1), Vi(L), Vi(L + 1), Vi(-1)>>, <<Vi(0), Vi(1), Vi(L), Vi(L + 1), Vi(1000), Vi(-1)>>,
+                       LAMBDA st, ln : Case("str_substring", <<Sv[k], st, ln>>, <<>>))])
+MathArgs == <<Vi(0), Vi(1), Vi(-1), Vi(7), Vi(-7), VMax, VMin, VInt(<<32768, 0, 0, 1>>), Wide(0)>>
+MathCases == [k \in 1..Len(IntArgs) |-> Case("int_to_string", <<IntArgs[k]>>, <<>>)]
+             \o [k \in 1..Len(MathArgs) |-> Case("abs", <<MathArgs[k]>>, <<>>)]
+             \o Prod3(<<"min", "max">>, MathArgs, MathArgs, LAMBDA f, x, y : Case(f, <<x, y>>, <<>>))
+SemCases == CharAtCases \o FromCharCases \o Str1Cases \o Str2Cases \o SubCases \o MathCases
+
+Raw == CharCases \o ConvCases \o NewCases \o SliceCases \o RemoveCases \o ListCases \o SemCases
 Jobs == ndJsonDeserialize(IOEnv.NANOLIB_JOBS)          \* extra cases [id, fn, args, cells] (may be empty)
 \* every case is built exactly once (in Init) and travels in the state variable c
 Tagged(all, k) == [id |-> all[k].fn \o "~" \o ToString(k), fn |-> all[k].fn, args |-> all[k].args, cells |-> all[k].cells]
 
-Apply(x) == LibApply(x.fn, x.args, [j \in 1..Len(x.cells) |-> x.cells[j].v])
+C0 == Ctx([funcs |-> <<>>, structs |-> <<>>, enums |-> <<>>, unions |-> <<>>, globals |-> <<>>, shadows |-> <<>>, externs |-> <<>>], {}, "spec", FALSE)
+InLib(fn) == fn \in LibBuiltins \cup LibOverrides
+Apply(x) == LET store == [j \in 1..Len(x.cells) |-> x.cells[j].v] IN
+            IF InLib(x.fn) THEN LibApply(x.fn, x.args, store)
+            ELSE LET r == Builtin(C0, x.fn, x.args, [NewState(1000) EXCEPT !.store = store]) IN     \* a builtin NanoSem specifies itself
+                 [ok |-> r.st.status, v |-> r.v, store |-> r.st.store]
 \* alts: what the case gives under each deviation switch that changes it (attribution of a mismatch to a listed finding)
 Alt(x, sw) == LibDev(sw, x.fn, x.args, [j \in 1..Len(x.cells) |-> x.cells[j].v])
 SwSeq == <<"VM_SLICE_START_END", "VM_REMOVE_AT_UNCHECKED", "INTERP_CHAR_ARG_32BIT", "LIST_INDEX_32BIT", "VM_CAST_BOOL_STRING_TRUE",
            "INTERP_CAST_BOOL_STRING_LITERAL", "ARRAY_NEW_NEGATIVE_EMPTY">>
 Rec(x) == LET r == Apply(x) IN
           [id |-> x.id, fn |-> x.fn, args |-> x.args, cells |-> x.cells, ok |-> r.ok, v |-> r.v, cells2 |-> r.store,
-           alts |-> SelectSeq([j \in 1..Len(SwSeq) |-> LET d == Alt(x, SwSeq[j]) IN [sw |-> SwSeq[j], ok |-> d.ok, v |-> d.v, cells2 |-> d.store]],
+           alts |-> IF ~InLib(x.fn) THEN <<>> ELSE SelectSeq([j \in 1..Len(SwSeq) |-> LET d == Alt(x, SwSeq[j]) IN [sw |-> SwSeq[j], ok |-> d.ok, v |-> d.v, cells2 |-> d.store]],
                               LAMBDA d : d.ok # r.ok \/ d.v # r.v \/ d.cells2 # r.store)]
 
 VARIABLES c, phase
